@@ -26,6 +26,11 @@ import (
 // and, as a Go-side oracle that knows nothing of the Coq model, the direct
 // text is decoded with encoding/json and deep-compared with d itself.
 //
+// A case may go on with a history (c12Hist below) in the same process: more
+// renders, on two engines, of templates that parse, MUTATE and stringify copies
+// of d, and calls of the exported functions by a Go caller.  gen/c12.py starts
+// one harness process per history case.
+//
 // typed data: {"t": "nil|bool|int|float|str|arr|nilarr|map|nilmap", "v": ...}
 //
 //	int   : decimal text, becomes a Go int        float : decimal text, becomes float64
